@@ -20,6 +20,8 @@ func init() {
 				{0, 0, -1, 0, 0, 5, 0}, {0, 0, 0, 0, 0, 5, 0}, {2, 0, -1, 0, 0, 5, 1},
 				// more digits than (prec/19+2) words hold: far-away digits still decide rounding and accuracy
 				{0, 39, -1, 0, 0, 1, 0},
+				// through fmt.Scanner (Scan): leading blank skipped, literal consumed, the rest left unread
+				{2, 3, 2, 0, 0, 3, 4}, {0, 20, -1, 0, 0, 19, 4}, {1, 2, 0, 2, 2, 1, 4}, {0, 0, -1, 0, 0, 5, 4},
 			}
 			if tier == "thorough" {
 				lits = append(lits, lit{0, 38, -1, 0, 0, 34, 0}, lit{0, 20, 20, 2, 1, 38, 0}, lit{2, 39, 1, 1, 2, 19, 0}, lit{0, 5, 34, 0, 0, 0, 0}, lit{0, 24, -1, 3, 0, 1, 0})
@@ -43,12 +45,12 @@ func init() {
 			return jobs
 		},
 		Bounds: map[string]string{
-			"quick":    "base-10 literals from 15 templates [sign] int-digits [. frac-digits] [e [sign] exp-digits] with up to 24 significand digits (crossing the 19-digit word boundary) and one 39-digit template at precision 1, exponents of 1-3 digits and 10-digit exponents beyond the int32 range (must be rejected), through Parse, SetString, UnmarshalText and ParseDecimal, receiver precision {0,1,2,3,4,5,7,19,20}: every digit symbolic, value == roundRef(exact) with truthful accuracy, precision 0 -> 34. Arbitrary ASCII strings of every length 0..3 with base argument 0, 2, 8, 10, 16 (all 128^L contents symbolic): no panic, error => nil result, accepted exactly when the documented grammar (specAccepts) accepts, detected base as specified.",
+			"quick":    "base-10 literals from 20 templates [sign] int-digits [. frac-digits] [e [sign] exp-digits] with up to 24 significand digits (crossing the 19-digit word boundary) and one 39-digit template at precision 1, exponents of 1-3 digits and 10-digit exponents beyond the int32 range (must be rejected), through Parse, SetString, UnmarshalText, ParseDecimal and (4 templates) Scan with a byte-slice fmt.ScanState, receiver precision {0,1,2,3,4,5,7,19,20}: every digit symbolic, value == roundRef(exact) with truthful accuracy, precision 0 -> 34. Arbitrary ASCII strings of every length 0..3 with base argument 0, 2, 8, 10, 16 (all 128^L contents symbolic): no panic, error => nil result, accepted exactly when the documented grammar (specAccepts) accepts, detected base as specified.",
 			"thorough": "literals up to 40 digits; arbitrary strings of length 4 for base 0 and 10.",
 		},
 		Outside: []string{
 			"values of base 2/8/16 literals and 'p' exponents (computed through pow2's precision-limited products; only their acceptance and panic-freedom are covered)",
-			"Scan (fmt.ScanState plumbing)", "non-ASCII bytes (the reader is byte-oriented; bytes >= 0x80 take the same 'other character' branches)", "arbitrary strings longer than 4",
+			"Scan beyond the 4 literal templates (rune sizes other than 1, Token/Width plumbing)", "non-ASCII bytes (the reader is byte-oriented; bytes >= 0x80 take the same 'other character' branches)", "arbitrary strings longer than 4",
 			"the grammar reference specAccepts is a re-implementation of the grammar documented for math/big.Float.Parse; it is not compared with math/big's code by the solver",
 		},
 		Assumptions: []string{"strings.Reader and strconv.ParseInt are executed from their SSA bodies; fmt.Errorf is opaque (returns some non-nil error)", archNote},
